@@ -9,7 +9,7 @@ use serde_json::{json, Value};
 use std::collections::BTreeSet;
 
 pub fn base_cfg(role: Role, len: usize, blk: usize, ws: u16) -> XCfg {
-    XCfg { role, blk, ws, len, handshake: false, timeout_s: 5, repeat: 1, clean: true, alpha: 0, silence_after: None, error_at: None, ack_every_copy: false, snapshot_tail: false }
+    XCfg { role, blk, ws, len, handshake: false, timeout_s: 5, repeat: 1, clean: true, alpha: 0, silence_after: None, error_at: None, ack_every_copy: false, snapshot_tail: false, noise: None }
 }
 
 pub fn cell_spec(cfg: &XCfg, bound: u64, max_exec: u64, props: &[&str]) -> Value {
@@ -267,6 +267,23 @@ pub fn c07_cells(tier: Tier) -> Vec<Value> {
                             c5.error_at = Some(k);
                             cells.push(cell_spec(&c5, 1, MAXE, &p));
                         }
+                    }
+                }
+            }
+        }
+    }
+    // noise family: k = 0..=9 non-progress answers of one kind (duplicate, future/gap, stray, undecodable) at the start or
+    // in the middle of a transfer, then silence: the retry counter must still bound the wait
+    for role in [Role::Sender, Role::Receiver] {
+        for ws in [1u16, 3] {
+            let len = 2 * ws as usize * blk + 3;
+            for at in [0usize, 1] {
+                for kind in 0..4u8 {
+                    for count in 0..=9usize {
+                        let mut cfg = base_cfg(role, len, blk, ws);
+                        cfg.alpha = 3;
+                        cfg.noise = Some((at, kind, count));
+                        cells.push(cell_spec(&cfg, 0, MAXE, &p));
                     }
                 }
             }
